@@ -1395,6 +1395,37 @@ for _n in ("core::fmt::builders::DebugList::<'a, 'b>::entry", "core::fmt::builde
 
 def _entries(E, st, fid, t, args, dest_ty):
     """DebugList/DebugSet/DebugMap::entries: formats every item of the iterator (user Debug code)"""
+    src = args[1]
+    if src[0] == 'ref':
+        # entries(&container): core turns its argument into an iterator first (`for e in entries`): the crate's own
+        # `impl IntoIterator for &Container` is run
+        try:
+            held = E.load(st, src[2], quiet=True)
+        except Exception:
+            held = None
+        path = None
+        if held is not None and held[0] == 'map':
+            path = st.maps[held[1]].name
+        elif held is not None and held[0] == 'adt' and held[1] in E.container_paths:
+            path = held[1]
+        if path is not None:
+            for b in E.facts.bodies.values():
+                im = b.impl or {}
+                sf = im.get('self') or {}
+                if b.name == 'into_iter' and (im.get('trait') or '').endswith('IntoIterator') and sf.get('k') == 'ref' \
+                        and bool(sf.get('mut')) == bool(src[1]) and (sf.get('to') or {}).get('path') == path:
+                    mids = E.byvalue_maps(held)
+                    gs = {}
+                    for g in b.generics:
+                        if g['kind'] == 'const' and mids:
+                            gs[g['name']] = st.maps[mids[0]].cap
+                    out = []
+                    for kind, s2, v in E.call_local(st, b.id, [src], gs):
+                        if kind != 'ret':
+                            out.append((kind, s2, v))
+                        else:
+                            out.extend(_entries(E, s2, fid, t, [args[0], v], dest_ty))
+                    return out
     it_ptr, ip = _with_iter(E, st, fid, args[1])
 
     # is the iterator handed over a faithful copy of the root's receiver (Debug of a lazy iterator through a clone)?
